@@ -8,7 +8,7 @@ CONSTANTS
   FromInput <- FromRef
   ExplicitTargets = TRUE
   Refusals = TRUE
-  ZeroHeightRefused = FALSE
+  ZeroHeightRefused = TRUE
   AlignTarget = FALSE
   MaxLevel = 3
 INIT Init
